@@ -437,6 +437,26 @@ def r7(ctx, rep):
     rep.check(n_csv >= 1, "csv:sites", f"expected the from_text CSV reader construction in prqlc, found {n_csv} call(s) into the csv crate's reader constructors")
 
 
+def r8(ctx, rep):
+    rep.rule("C08.R8", "the fields of a relation literal's rows are placed by name, not by position", floor=1)
+    syn = ctx.syn
+    fs = [f for f in syn.fns if f["crate"] == "prqlc" and f["file"].endswith("semantic/lowering.rs") and f["name"] == "lower_table_ref" and "body" in f]
+    if len(fs) != 1:
+        raise AnchorMissing("Lowerer::lower_table_ref")
+    f = fs[0]
+    arm = None
+    for m in matches_of(f["body"]):
+        for a in m["arms"]:
+            if show(a["pat"], maxdepth=6).startswith("pl::ExprKind::Array"):
+                arm = a
+    if arm is None:
+        raise AnchorMissing("lower_table_ref: arm pl::ExprKind::Array")
+    builds = any(n.get("k") == "struct" and last_seg(n["p"]) == "RelationLiteral" for n in walk(arm["body"]))
+    by_name = [n for n in walk(arm["body"]) if n.get("k") == "bin" and n["op"] == "==" and (".alias" in show(n["lhs"], maxdepth=6) or ".alias" in show(n["rhs"], maxdepth=6))]
+    rep.check(builds and bool(by_name), "rows-by-field-name", "the rows of `from [{a=1, b=2}, {b=3, a=4}]` are tuples with named fields; lowering must place each field under the column of its name "
+              "(compare `field.alias` with the column names) - read positionally, the second row becomes a=3, b=4", file=f["file"], line=arm["l"], fn=f["path"])
+
+
 def run(ctx, rep):
-    for r in (r1, r2, r3, r4, r5, r6, r7):
+    for r in (r1, r2, r3, r4, r5, r6, r7, r8):
         rep.guard(r, ctx)
